@@ -65,6 +65,154 @@ def _inline(wtree, kname, ktree, kparams):
     return out
 
 
+_INL = [0]
+
+
+def _map_tree(stmts, fs):
+    """rebuild a statement tree, applying fs(stmt) -> list of statements at every level (children first)"""
+    out = []
+    for s in stmts:
+        k = s[0]
+        if k == 'if':
+            s = ('if', s[1], _map_tree(s[2], fs), _map_tree(s[3], fs), s[4])
+        elif k == 'do':
+            s = ('do', s[1], s[2], s[3], s[4], _map_tree(s[5], fs), s[6])
+        elif k == 'loop':
+            s = ('loop', _map_tree(s[1], fs), s[2], _map_tree(s[3], fs), _map_tree(s[4], fs), s[5], s[6])
+        elif k == 'switch':
+            s = ('switch', s[1], _map_tree(s[2], fs), s[3])
+        elif k == 'try':
+            s = ('try', _map_tree(s[1], fs), [_map_tree(h, fs) for h in s[2]], s[3])
+        out.extend(fs(s))
+    return out
+
+
+def _rename_tree(stmts, ren, lab):
+    """rename variables (dict) and labels (prefix) of a helper body"""
+    def rx(e):
+        def f(x):
+            if x[0] == 'var' and x[1] in ren:
+                return ren[x[1]]
+            if x[0] == 'idx' and x[1] in ren and ren[x[1]][0] == 'var':
+                return ('idx', ren[x[1]][1]) + x[2:]
+            return x
+        return ir.map_expr(f, e) if e is not None else None
+
+    def fs(s):
+        k = s[0]
+        if k == 'assign':
+            return [('assign', rx(s[1]), rx(s[2]), s[3])]
+        if k == 'call':
+            return [('call', s[1], tuple(rx(a) for a in s[2]), s[3])]
+        if k == 'if':
+            return [('if', rx(s[1]), s[2], s[3], s[4])]
+        if k == 'return':
+            return [('return', rx(s[1]), s[2])]
+        if k == 'eval':
+            return [('eval', rx(s[1]), s[2])]
+        if k == 'do':
+            v = ren.get(s[1][1], s[1]) if isinstance(s[1], tuple) else s[1]
+            return [('do', v, rx(s[2]), rx(s[3]), rx(s[4]), s[5], s[6])]
+        if k == 'loop':
+            return [('loop', s[1], rx(s[2]), s[3], s[4], s[5], s[6])]
+        if k == 'switch':
+            return [('switch', rx(s[1]), s[2], s[3])]
+        if k == 'case':
+            return [('case', rx(s[1]) if s[1] is not None else None, s[2])]
+        if k == 'label':
+            return [('label', lab + str(s[1]), s[2])]
+        if k == 'goto':
+            return [('goto', lab + str(s[1]), s[2])]
+        return [s]
+    return _map_tree(stmts, fs)
+
+
+def inline_helpers(ctree, helpers, sigs, depth=0):
+    """port-only helper functions of the unit's own file are expanded at their call sites (statement calls and `v = helper(...)`),
+    so that extracting a helper from a unit does not change what is compared with the reference"""
+    if not helpers or depth > 3:
+        return ctree
+    prepared = {}
+
+    def prep(name):
+        if name not in prepared:
+            fn = helpers[name]
+            tree, lo = cpp2ir.lower_function(fn, sigs)
+            tree = inline_helpers(tree, {k: v for k, v in helpers.items() if k != name}, sigs, depth + 1)
+            params = [p for p in fn['params'] if p['ty'] not in cpp2ir.CTX_TYPES and p['name'] != '']
+            prepared[name] = (tree, lo, params, fn)
+        return prepared[name]
+
+    def expand(name, args, res, line):
+        tree, lo, params, fn = prep(name)
+        if len(args) != len(params):
+            raise AnalysisBroken('helper %s: argument count differs at line %s' % (name, line))
+        _INL[0] += 1
+        tag = '$h%d_' % _INL[0]
+        assigned = set()
+        for s in _walk_stmts(tree):
+            if s[0] == 'assign' and s[1][0] in ('var', 'idx'):
+                assigned.add(s[1][1])
+        ren = {}
+        pre = []
+        for p_, a in zip(params, args):
+            byref = p_['pm'] in ('ref', 'ptr') or p_['ty'].rstrip().endswith('&') and not p_['ty'].startswith('const')
+            if a[0] == 'var' and (byref or p_['name'] not in assigned):
+                ren[p_['name']] = a
+            elif a[0] != 'var' and p_['name'] not in assigned and not byref and ir.count_draws(a) == 0 and \
+                    not any(x[0] == 'call' for x in ir.subexprs(a)):
+                ren[p_['name']] = a            # pure value argument never modified: substitute
+            else:
+                ren[p_['name']] = ('var', tag + p_['name'])
+                pre.append(('assign', ('var', tag + p_['name']), a, line))
+        for l in lo.locals:
+            if l not in ren:
+                ren[l] = ('var', tag + l)
+        body = _rename_tree(tree, ren, tag)
+        end = tag + 'end'
+
+        def fs(s):
+            if s[0] == 'return':
+                out = []
+                if s[1] is not None and res is not None:
+                    out.append(('assign', res, s[1], s[2]))
+                elif s[1] is not None and (ir.count_draws(s[1]) or any(x[0] == 'call' for x in ir.subexprs(s[1]))):
+                    out.append(('eval', s[1], s[2]))
+                out.append(('goto', end, s[2]))
+                return out
+            return [s]
+        body = _map_tree(body, fs)
+        return pre + body + [('label', end, line)]
+
+    def fs(s):
+        if s[0] == 'call' and s[1].split('::')[-1] in helpers:
+            return expand(s[1].split('::')[-1], list(s[2]), None, s[3])
+        if s[0] == 'assign' and s[2][0] == 'call' and s[2][1].split('::')[-1] in helpers and s[1][0] == 'var':
+            return expand(s[2][1].split('::')[-1], list(s[2][2:]), s[1], s[3])
+        return [s]
+    return _map_tree(ctree, fs)
+
+
+def _walk_stmts(stmts):
+    for s in stmts:
+        yield s
+        k = s[0]
+        if k == 'if':
+            yield from _walk_stmts(s[2])
+            yield from _walk_stmts(s[3])
+        elif k == 'do':
+            yield from _walk_stmts(s[5])
+        elif k == 'loop':
+            for part in (s[1], s[3], s[4]):
+                yield from _walk_stmts(part)
+        elif k == 'switch':
+            yield from _walk_stmts(s[2])
+        elif k == 'try':
+            yield from _walk_stmts(s[1])
+            for h in s[2]:
+                yield from _walk_stmts(h)
+
+
 def modinfo_f(units, frozen=None):
     """reference side: argument positions a unit may write (assigned, or passed on at a written position)"""
     frozen = frozen or {}
@@ -182,6 +330,8 @@ def compare_unit(u, fn, sigs=None, kernel=None, opts=None):
         kparams = [p['name'] for p in kernel['params'] if p['ty'] not in cpp2ir.CTX_TYPES and p['name'] != '']
         ctree = _inline(ctree, cpp2ir.short(kernel['qn']), ktree, kparams)
         decl_zero += klo.decl_zero
+    if opts.get('helpers'):
+        ctree = inline_helpers(ctree, opts['helpers'], sigs)
     sc = tv.Side('c', fn['name'], [p['name'] for p in params])
     sc.keep_underscore = {p['name'] for p in params if p['name'].rstrip('_') in lo.locals
                           or (kernel is not None and p['name'].rstrip('_') in klo.locals)}
